@@ -162,20 +162,23 @@ def nav_roundtrip(ck: Check, n: int) -> None:
             w = 2 if m < 5 else 4 if m < 10 else 8
             v = rng.randint(-(256 ** w) // 2, (256 ** w) // 2 - 1)
             pic, usage, buf, want = picture(False, m, 0), "COMP", enc_binary(w, v), v
-        text = f"       01  REC.\n           05  LEAD  PIC X(3).\n           05  FLD   PIC {pic} USAGE {usage}.\n           05  TRAIL PIC X(2).\n"
+        # the data name is not part of the encoding: names that begin or end with a USAGE word, with and without the USAGE clause
+        fname = rng.choice(["FLD", "FLD", "NET-COMP", "COMP-TOTAL", "YTD-BINARY", "DISPLAY-AMT", "AMT-DISPLAY", "X-COMP-3", "PACKED-DECIMAL-X"])
+        uclause = "" if (usage == "DISPLAY" and rng.random() < 0.5) else f" USAGE {usage}"
+        text = f"       01  REC.\n           05  LEAD  PIC X(3).\n           05  {fname}   PIC {pic}{uclause}.\n           05  TRAIL PIC X(2).\n"
         inp = {"copybook": text, "field_bytes": buf.hex()}
         ck.oracle_evaluations += 1
         ck.case(("nav", pic, usage, buf), feature=f"nav/{kind}")
         try:
             schema = SchemaMaker.from_json(next(iter(schema_iter(io.StringIO(text)))))
             rec = "abc".encode("cp037") + buf + "xy".encode("cp037")
-            got = EBCDIC().nav(schema, rec).name("FLD").value()
+            got = EBCDIC().nav(schema, rec).name(fname).value()
         except BaseException as ex:  # noqa: BLE001
-            ck.fail("nav-roundtrip", f"reading FLD PIC {pic} {usage} from {buf.hex()} raises {type(ex).__name__}: {ex}", inp)
+            ck.fail("nav-roundtrip", f"reading {fname} PIC {pic} {usage} from {buf.hex()} raises {type(ex).__name__}: {ex}", inp)
             continue
         ok = (type(got) is type(want)) and (got == want) and (not isinstance(want, Decimal) or got.as_tuple().exponent == want.as_tuple().exponent)
         if not ok:
-            ck.fail("nav-roundtrip", f"FLD PIC {pic} {usage} stored {want!r} read back {got!r}", inp)
+            ck.fail("nav-roundtrip", f"{fname} PIC {pic} {usage} stored {want!r} read back {got!r}", inp)
 
 
 def run(ck: Check) -> int:
